@@ -25,7 +25,7 @@ pub fn props() -> Vec<Prop> {
             id: "C10",
             run: c10,
             tools: None,
-            rule: "for every (link position, target position) pair over 2 names up to depth 4 (quick) / 5 (thorough), target kind in {file, dir, absent, link-to-file, link-to-dir}, and both spellings of the target (absolute, relative to the link's directory): a fresh filesystem is prepared, symlink(link, target) is called and the laws of the statement are checked through the API (readlink_abs == abs(target); clean(dir(link)/readlink) == readlink_abs and readlink relative; is_symlink && !is_file && !is_dir; is_symlink_dir/file == kind of the target at creation; entry()/follow(true) swaps path and alt exactly once; remove / chmod / chown without follow act on the link and leave the target's snapshot unchanged; readlink/readlink_abs fail on every non-link). Both backends; on Stdfs additionally std::fs::read_link resolves to the same target. distinct_nontrivial = distinct (backend, depth(link), depth(target), relation, target kind, spelling) tuples.",
+            rule: "for every (link position, target position) pair over 2 names up to depth 4 (quick) / 6 (thorough), target kind in {file, dir, absent, link-to-file, link-to-dir}, and both spellings of the target (absolute, relative to the link's directory): a fresh filesystem is prepared, symlink(link, target) is called and the laws of the statement are checked through the API (readlink_abs == abs(target); clean(dir(link)/readlink) == readlink_abs and readlink relative; is_symlink && !is_file && !is_dir; is_symlink_dir/file == kind of the target at creation; entry()/follow(true) swaps path and alt exactly once; remove / chmod / chown without follow act on the link and leave the target's snapshot unchanged; readlink/readlink_abs fail on every non-link). Both backends; on Stdfs additionally std::fs::read_link resolves to the same target. distinct_nontrivial = distinct (backend, depth(link), depth(target), relation, target kind, spelling) tuples.",
             assumptions: &["on Stdfs dangling or link targets are only judged for the creation step (C02's domain)", "readlink may be absolute only when the target is the link's own directory (C16)", "the Stdfs half runs as root (chown must be able to succeed)"],
             shards_quick: 8,
             shards_thorough: 16,
@@ -561,7 +561,7 @@ fn c10_scenario<V: VirtualFileSystem>(v: &V, backend: &str, root: &str, l: &str,
 }
 
 fn c10(ctx: &Ctx, rep: &mut Report) {
-    let depth = if ctx.thorough { 5 } else { 4 };
+    let depth = if ctx.thorough { 6 } else { 4 };
     let pos = positions(depth);
     let (sb, root) = Sandbox::nested("c10");
     let mut idx = 0u64;
